@@ -238,6 +238,26 @@ class HttpxShim:
         return getattr(_httpx, name)
 
 
+class EdgeBits:
+    """The randomness seam of c2.py (mask keys): the run's seeded generator, except that one in ten 32-bit draws is a value
+    at the edge of the 32-bit space (zero, zero bytes in any position, all ones) - each of them as legal as any other."""
+    EDGES = (0, 0, 1, 0xFF, 0x100, 0xFFFF, 0x00FFFFFF, 0xFF000000, 0x01000000, 0xFFFFFFFF, 0x80000000, 0x7FFFFFFF, 0x00FF00FF)
+
+    def __init__(self, rng):
+        self._rng = rng
+        self.edge_draws = 0
+
+    def getrandbits(self, k):
+        v = self._rng.getrandbits(k)
+        if k == 32 and self._rng.random() < 0.1:
+            self.edge_draws += 1
+            return self._rng.choice(self.EDGES)
+        return v
+
+    def __getattr__(self, name):
+        return getattr(self._rng, name)
+
+
 class Seams:
     """Context manager that rebinds the module globals for one run and restores them afterwards."""
 
@@ -253,7 +273,7 @@ class Seams:
         rng = _random.Random(int(w.run_seed, 16) ^ 0x5EED)
         w.sim_random = rng
         for mod, name, new in ((client, "time", SimTime(w.kernel, w)), (client, "httpx", HttpxShim(w)),
-                               (client, "random", rng), (c2, "random", rng), (utils, "random", rng),
+                               (client, "random", rng), (c2, "random", EdgeBits(rng)), (utils, "random", rng),
                                (cr, "get_random_bytes", SeededBytes(w.run_seed))):
             self.saved.append((mod, name, getattr(mod, name)))
             setattr(mod, name, new)
